@@ -373,7 +373,7 @@ def run(ctx):
                 corpus.append((f, c))
                 jobs.append((c["text"], [tuple(c["position"])]))
                 meta.append(None)
-    progs = gen_programs(rng, 900 if th else 130)
+    progs = gen_programs(rng, 900 if th else 110)
     lexed = L.lex_texts(judge, [t for t, _ in progs])
     for (text, prog), toks in zip(progs, lexed):
         occs, infos, scope = splscope.analyse(prog)
@@ -381,7 +381,7 @@ def run(ctx):
         rnd = random_positions(text, rng, 12)
         jobs.append((text, [(l, c) for l, c, *_ in pts] + rnd))
         meta.append((prog, infos, scope, [p[2:] for p in pts] + [None] * len(rnd), toks))
-    for text in gen_malformed(rng, 4000 if th else 600):
+    for text in gen_malformed(rng, 4000 if th else 500):
         jobs.append((text, random_positions(text, rng, 8)))
         meta.append(None)
 
